@@ -10,9 +10,9 @@ SPEC = {
     "trusted_base": [
         "Coq 8.16.1 kernel (coqc; coqchk in the thorough tier); no native_compute",
         "harness/cmd/nodedb (drives the real badger and pathbadger NodeDB on disk through mkvs trees; a recording wrapper around api.NodeDB/api.Batch observes PutNode/RemoveNodes; reads back every known root after every operation)",
-        "vm_compute evaluation of Verif.NodeDB.Badger (badger) and Verif.NodeDB.Spec (pathbadger) on the recorded histories",
+        "vm_compute evaluation of Verif.NodeDB.Badger (badger) and Verif.NodeDB.PathBadger (pathbadger; node positions read from the real pointers by reflection) on the recorded histories",
         "modelled, not verified: Badger's LSM/MVCC (a write log with 'largest timestamp <= read timestamp, newest write wins'), the mkvs tree layer (supplies node sets; consistency of the supplied sets is a checked side condition wf_step), physical GC/compaction, true concurrency (not exercised)",
-        "pathbadger has no concrete Coq model: it is compared with Spec.v and with badger by the harness only",
+        "pathbadger: concrete executable model Verif.NodeDB.PathBadger (positions, finalized/pending key spaces, sequence numbers) compared with the real backend on every history (error class of finalize/prune, accepted/rejected commits, earliest/latest, HasRoot, readable or not for every known root after every operation); its refinement of Spec.v is NOT proved (only witnesses and rule lemmas)",
     ],
     "assumptions": [
         "root ids abstract typed hashes: distinct (type, hash) pairs are distinct ids (no hash collision)",
